@@ -390,11 +390,12 @@ variables ti \in 1..Len(Inputs),
           C = NoCtx, ideal = <<>>,
           visited = {}, nw = <<>>, ew = <<>>, nwc = <<>>, ewc = <<>>,
           tcd = <<>>, retCycles = {}, retErr = "none", roots = <<>>, root = "", result = "running",
-          evn = 0, evbad = 0;      \* events passed so far, index of the first one that differs from the logged trace (0: none)
+          evn = 0, evbad = 0,
+          inp = <<>>;              \* inp, read once (TLC re-evaluates the definition behind the constant at every reference)      \* events passed so far, index of the first one that differs from the logged trace (0: none)
 
 macro Ev(got) {
-  if (evbad = 0 /\ ~EvMatch(Inputs[ti], evn + 1, got)) {
-    print ToJson([rec |-> "evmismatch", id |-> Inputs[ti].id, n |-> evn + 1, got |-> got, want |-> EvWant(Inputs[ti], evn + 1)]);
+  if (evbad = 0 /\ ~EvMatch(inp, evn + 1, got)) {
+    print ToJson([rec |-> "evmismatch", id |-> inp.id, n |-> evn + 1, got |-> got, want |-> EvWant(inp, evn + 1)]);
     evbad := evn + 1;
   };
   evn := evn + 1;
@@ -453,17 +454,17 @@ ce5: return;
 }
 
 {
-mi: C := Ctx(Graph(Inputs[ti].m)); ideal := IdealOf(C);
+mi: inp := Inputs[ti]; C := Ctx(Graph(inp.m)); ideal := IdealOf(C);
     nw := [n \in C.N |-> EmptyW]; ew := [e \in C.E |-> EmptyW];
     nwc := [n \in C.N |-> IF C.nt[n] = "wild" THEN {C.TermType[n]} ELSE {}]; ewc := [e \in C.E |-> {}];
     tcd := [n \in C.N |-> {}];
-mb: print ToJson([rec |-> "input", id |-> Inputs[ti].id, m |-> Inputs[ti].m, g |-> GraphOut(Graph(Inputs[ti].m)),
+mb: print ToJson([rec |-> "input", id |-> inp.id, m |-> inp.m, g |-> GraphOut(Graph(inp.m)),
                   ideal |-> [reasons |-> ideal.reasons, tw |-> ideal.tw, ew |-> ideal.ew, wild |-> ideal.wild, ewild |-> ideal.ewild],
                   multi |-> HasMultiEdgeOperand(C), reseed |-> HasReseedableIntersection(C)]);
     if (C.err # "none") { result := C.err; }
     else if ("RewriteCycleByDFSOrder" \notin Devs /\ C.rwCycle) { result := "modelcycle"; };   \* pre-pass of the D8 fix
 m0: while (result = "running" /\ Unvisited(C, visited) # {}) {
-      with (n \in RootChoices(Inputs[ti], C, visited, roots)) { roots := Append(roots, n); root := n; };
+      with (n \in RootChoices(inp, C, visited, roots)) { roots := Append(roots, n); root := n; };
 m0b:  call CalcNode(root, <<>>);
 m1:   Ev([k |-> "root", id |-> root, pos |-> 0, w |-> WOut(nw[root]), wc |-> nwc[root], cyc |-> retCycles, err |-> ErrCls(retErr), full |-> FullState(C, nw, ew, nwc, ewc)]);
       if (retErr # "none") { result := retErr; } else if (retCycles # {}) { result := "tuplecycle:unresolved"; };
@@ -472,18 +473,18 @@ m1:   Ev([k |-> "root", id |-> root, pos |-> 0, w |-> WOut(nw[root]), wc |-> nwc
 m2: if (result = "running") {
       if ("EmptyWeightsAccepted" \notin Devs /\ \E n \in C.N : C.nt[n] = "rel" /\ DOMAIN nw[n] = {}) { result := "invalid:noterminal"; }   \* post-pass of the D9 fix
       else { result := "ok"; } };
-m3: print ToJson([rec |-> "outcome", id |-> Inputs[ti].id, roots |-> roots, out |-> Outcome(C, result, nw, ew, nwc, ewc), evn |-> evn, evbad |-> evbad,
-                  evall |-> (~HasEvents(Inputs[ti]) \/ evn = Len(Inputs[ti].events))]);
+m3: print ToJson([rec |-> "outcome", id |-> inp.id, roots |-> roots, out |-> Outcome(C, result, nw, ew, nwc, ewc), evn |-> evn, evbad |-> evbad,
+                  evall |-> (~HasEvents(inp) \/ evn = Len(inp.events))]);
 }
 } *)
 \* BEGIN TRANSLATION
 CONSTANT defaultInitValue
 VARIABLES pc, ti, C, ideal, visited, nw, ew, nwc, ewc, tcd, retCycles, retErr, 
-          roots, root, result, evn, evbad, stack, nodeID, path, cycles, idx, 
-          outs, cur, edge, epath, isTC, tw, np
+          roots, root, result, evn, evbad, inp, stack, nodeID, path, cycles, 
+          idx, outs, cur, edge, epath, isTC, tw, np
 
 vars == << pc, ti, C, ideal, visited, nw, ew, nwc, ewc, tcd, retCycles, 
-           retErr, roots, root, result, evn, evbad, stack, nodeID, path, 
+           retErr, roots, root, result, evn, evbad, inp, stack, nodeID, path, 
            cycles, idx, outs, cur, edge, epath, isTC, tw, np >>
 
 Init == (* Global variables *)
@@ -503,6 +504,7 @@ Init == (* Global variables *)
         /\ result = "running"
         /\ evn = 0
         /\ evbad = 0
+        /\ inp = <<>>
         (* Procedure CalcNode *)
         /\ nodeID = defaultInitValue
         /\ path = defaultInitValue
@@ -535,15 +537,16 @@ cn0 == /\ pc = "cn0"
                   /\ UNCHANGED << retCycles, retErr, stack, nodeID, path, 
                                   cycles, idx, outs, cur >>
        /\ UNCHANGED << ti, C, ideal, visited, nw, ew, nwc, ewc, tcd, roots, 
-                       root, result, evn, evbad, edge, epath, isTC, tw, np >>
+                       root, result, evn, evbad, inp, edge, epath, isTC, tw, 
+                       np >>
 
 cn1 == /\ pc = "cn1"
        /\ visited' = (visited \cup {nodeID})
        /\ outs' = C.Out[nodeID]
        /\ pc' = "cn2"
        /\ UNCHANGED << ti, C, ideal, nw, ew, nwc, ewc, tcd, retCycles, retErr, 
-                       roots, root, result, evn, evbad, stack, nodeID, path, 
-                       cycles, idx, cur, edge, epath, isTC, tw, np >>
+                       roots, root, result, evn, evbad, inp, stack, nodeID, 
+                       path, cycles, idx, cur, edge, epath, isTC, tw, np >>
 
 cn2 == /\ pc = "cn2"
        /\ IF idx <= Len(outs)
@@ -583,12 +586,12 @@ cn2 == /\ pc = "cn2"
                   /\ UNCHANGED << ew, nwc, ewc, stack, idx, cur, edge, epath, 
                                   isTC, tw, np >>
        /\ UNCHANGED << ti, C, ideal, visited, nw, tcd, retCycles, retErr, 
-                       roots, root, result, evn, evbad, nodeID, path, cycles, 
-                       outs >>
+                       roots, root, result, evn, evbad, inp, nodeID, path, 
+                       cycles, outs >>
 
 cn3 == /\ pc = "cn3"
-       /\ IF evbad = 0 /\ ~EvMatch(Inputs[ti], evn + 1, ([k |-> "edge", id |-> nodeID, pos |-> C.EPos[cur][2], w |-> WOut(ew[cur]), wc |-> ewc[cur], cyc |-> retCycles, err |-> ErrCls(retErr)]))
-             THEN /\ PrintT(ToJson([rec |-> "evmismatch", id |-> Inputs[ti].id, n |-> evn + 1, got |-> ([k |-> "edge", id |-> nodeID, pos |-> C.EPos[cur][2], w |-> WOut(ew[cur]), wc |-> ewc[cur], cyc |-> retCycles, err |-> ErrCls(retErr)]), want |-> EvWant(Inputs[ti], evn + 1)]))
+       /\ IF evbad = 0 /\ ~EvMatch(inp, evn + 1, ([k |-> "edge", id |-> nodeID, pos |-> C.EPos[cur][2], w |-> WOut(ew[cur]), wc |-> ewc[cur], cyc |-> retCycles, err |-> ErrCls(retErr)]))
+             THEN /\ PrintT(ToJson([rec |-> "evmismatch", id |-> inp.id, n |-> evn + 1, got |-> ([k |-> "edge", id |-> nodeID, pos |-> C.EPos[cur][2], w |-> WOut(ew[cur]), wc |-> ewc[cur], cyc |-> retCycles, err |-> ErrCls(retErr)]), want |-> EvWant(inp, evn + 1)]))
                   /\ evbad' = evn + 1
              ELSE /\ TRUE
                   /\ evbad' = evbad
@@ -599,7 +602,7 @@ cn3 == /\ pc = "cn3"
                   /\ ewc' = ewc
        /\ pc' = "cn3b"
        /\ UNCHANGED << ti, C, ideal, visited, nw, ew, nwc, tcd, retCycles, 
-                       retErr, roots, root, result, stack, nodeID, path, 
+                       retErr, roots, root, result, inp, stack, nodeID, path, 
                        cycles, idx, outs, cur, edge, epath, isTC, tw, np >>
 
 cn3b == /\ pc = "cn3b"
@@ -619,7 +622,8 @@ cn3b == /\ pc = "cn3b"
                    /\ pc' = "cn2"
                    /\ UNCHANGED << retCycles, stack, nodeID, path, outs, cur >>
         /\ UNCHANGED << ti, C, ideal, visited, nw, ew, ewc, tcd, retErr, roots, 
-                        root, result, evn, evbad, edge, epath, isTC, tw, np >>
+                        root, result, evn, evbad, inp, edge, epath, isTC, tw, 
+                        np >>
 
 cn4 == /\ pc = "cn4"
        /\ \E choice \in ChoiceSet(C, nodeID, [nw |-> nw, ew |-> ew, nwc |-> nwc, ewc |-> ewc, tcd |-> tcd]):
@@ -640,7 +644,7 @@ cn4 == /\ pc = "cn4"
        /\ path' = Head(stack).path
        /\ stack' = Tail(stack)
        /\ UNCHANGED << ti, C, ideal, visited, roots, root, result, evn, evbad, 
-                       edge, epath, isTC, tw, np >>
+                       inp, edge, epath, isTC, tw, np >>
 
 CalcNode == cn0 \/ cn1 \/ cn2 \/ cn3 \/ cn3b \/ cn4
 
@@ -672,8 +676,8 @@ ce0 == /\ pc = "ce0"
                   /\ UNCHANGED << ew, tcd, retCycles, retErr, stack, edge, 
                                   epath, isTC, tw, np >>
        /\ UNCHANGED << ti, C, ideal, visited, nw, nwc, ewc, roots, root, 
-                       result, evn, evbad, nodeID, path, cycles, idx, outs, 
-                       cur >>
+                       result, evn, evbad, inp, nodeID, path, cycles, idx, 
+                       outs, cur >>
 
 ce1 == /\ pc = "ce1"
        /\ np' = Append(epath, edge)
@@ -694,12 +698,12 @@ ce1 == /\ pc = "ce1"
        /\ cur' = 0
        /\ pc' = "cn0"
        /\ UNCHANGED << ti, C, ideal, visited, nw, ew, nwc, ewc, tcd, retCycles, 
-                       retErr, roots, root, result, evn, evbad, edge, epath, 
-                       isTC, tw >>
+                       retErr, roots, root, result, evn, evbad, inp, edge, 
+                       epath, isTC, tw >>
 
 ce2 == /\ pc = "ce2"
-       /\ IF evbad = 0 /\ ~EvMatch(Inputs[ti], evn + 1, ([k |-> "node", id |-> C.To[edge], pos |-> 0, w |-> WOut(nw[C.To[edge]]), wc |-> nwc[C.To[edge]], cyc |-> retCycles, err |-> ErrCls(retErr)]))
-             THEN /\ PrintT(ToJson([rec |-> "evmismatch", id |-> Inputs[ti].id, n |-> evn + 1, got |-> ([k |-> "node", id |-> C.To[edge], pos |-> 0, w |-> WOut(nw[C.To[edge]]), wc |-> nwc[C.To[edge]], cyc |-> retCycles, err |-> ErrCls(retErr)]), want |-> EvWant(Inputs[ti], evn + 1)]))
+       /\ IF evbad = 0 /\ ~EvMatch(inp, evn + 1, ([k |-> "node", id |-> C.To[edge], pos |-> 0, w |-> WOut(nw[C.To[edge]]), wc |-> nwc[C.To[edge]], cyc |-> retCycles, err |-> ErrCls(retErr)]))
+             THEN /\ PrintT(ToJson([rec |-> "evmismatch", id |-> inp.id, n |-> evn + 1, got |-> ([k |-> "node", id |-> C.To[edge], pos |-> 0, w |-> WOut(nw[C.To[edge]]), wc |-> nwc[C.To[edge]], cyc |-> retCycles, err |-> ErrCls(retErr)]), want |-> EvWant(inp, evn + 1)]))
                   /\ evbad' = evn + 1
              ELSE /\ TRUE
                   /\ evbad' = evbad
@@ -715,8 +719,8 @@ ce2 == /\ pc = "ce2"
              ELSE /\ pc' = "ce3"
                   /\ UNCHANGED << stack, edge, epath, isTC, tw, np >>
        /\ UNCHANGED << ti, C, ideal, visited, nw, ew, nwc, ewc, tcd, retCycles, 
-                       retErr, roots, root, result, nodeID, path, cycles, idx, 
-                       outs, cur >>
+                       retErr, roots, root, result, inp, nodeID, path, cycles, 
+                       idx, outs, cur >>
 
 ce3 == /\ pc = "ce3"
        /\ IF DOMAIN nw[C.To[edge]] = {}
@@ -745,8 +749,8 @@ ce3 == /\ pc = "ce3"
                   /\ UNCHANGED << ew, tcd, retCycles, retErr, stack, edge, 
                                   epath, isTC, tw, np >>
        /\ UNCHANGED << ti, C, ideal, visited, nw, nwc, ewc, roots, root, 
-                       result, evn, evbad, nodeID, path, cycles, idx, outs, 
-                       cur >>
+                       result, evn, evbad, inp, nodeID, path, cycles, idx, 
+                       outs, cur >>
 
 ce4 == /\ pc = "ce4"
        /\ isTC' = (retCycles # {})
@@ -759,8 +763,8 @@ ce4 == /\ pc = "ce4"
        /\ ew' = [ew EXCEPT ![edge] = IF C.Kind[edge] \in {"ttu", "direct"} THEN Bump(tw') ELSE tw']
        /\ pc' = "ce5"
        /\ UNCHANGED << ti, C, ideal, visited, nw, nwc, ewc, retErr, roots, 
-                       root, result, evn, evbad, stack, nodeID, path, cycles, 
-                       idx, outs, cur, edge, epath, np >>
+                       root, result, evn, evbad, inp, stack, nodeID, path, 
+                       cycles, idx, outs, cur, edge, epath, np >>
 
 ce5 == /\ pc = "ce5"
        /\ pc' = Head(stack).pc
@@ -771,13 +775,14 @@ ce5 == /\ pc = "ce5"
        /\ epath' = Head(stack).epath
        /\ stack' = Tail(stack)
        /\ UNCHANGED << ti, C, ideal, visited, nw, ew, nwc, ewc, tcd, retCycles, 
-                       retErr, roots, root, result, evn, evbad, nodeID, path, 
-                       cycles, idx, outs, cur >>
+                       retErr, roots, root, result, evn, evbad, inp, nodeID, 
+                       path, cycles, idx, outs, cur >>
 
 CalcEdge == ce0 \/ ce1 \/ ce2 \/ ce3 \/ ce4 \/ ce5
 
 mi == /\ pc = "mi"
-      /\ C' = Ctx(Graph(Inputs[ti].m))
+      /\ inp' = Inputs[ti]
+      /\ C' = Ctx(Graph(inp'.m))
       /\ ideal' = IdealOf(C')
       /\ nw' = [n \in C'.N |-> EmptyW]
       /\ ew' = [e \in C'.E |-> EmptyW]
@@ -790,7 +795,7 @@ mi == /\ pc = "mi"
                       epath, isTC, tw, np >>
 
 mb == /\ pc = "mb"
-      /\ PrintT(ToJson([rec |-> "input", id |-> Inputs[ti].id, m |-> Inputs[ti].m, g |-> GraphOut(Graph(Inputs[ti].m)),
+      /\ PrintT(ToJson([rec |-> "input", id |-> inp.id, m |-> inp.m, g |-> GraphOut(Graph(inp.m)),
                         ideal |-> [reasons |-> ideal.reasons, tw |-> ideal.tw, ew |-> ideal.ew, wild |-> ideal.wild, ewild |-> ideal.ewild],
                         multi |-> HasMultiEdgeOperand(C), reseed |-> HasReseedableIntersection(C)]))
       /\ IF C.err # "none"
@@ -801,20 +806,20 @@ mb == /\ pc = "mb"
                             /\ UNCHANGED result
       /\ pc' = "m0"
       /\ UNCHANGED << ti, C, ideal, visited, nw, ew, nwc, ewc, tcd, retCycles, 
-                      retErr, roots, root, evn, evbad, stack, nodeID, path, 
-                      cycles, idx, outs, cur, edge, epath, isTC, tw, np >>
+                      retErr, roots, root, evn, evbad, inp, stack, nodeID, 
+                      path, cycles, idx, outs, cur, edge, epath, isTC, tw, np >>
 
 m0 == /\ pc = "m0"
       /\ IF result = "running" /\ Unvisited(C, visited) # {}
-            THEN /\ \E n \in RootChoices(Inputs[ti], C, visited, roots):
+            THEN /\ \E n \in RootChoices(inp, C, visited, roots):
                       /\ roots' = Append(roots, n)
                       /\ root' = n
                  /\ pc' = "m0b"
             ELSE /\ pc' = "m2"
                  /\ UNCHANGED << roots, root >>
       /\ UNCHANGED << ti, C, ideal, visited, nw, ew, nwc, ewc, tcd, retCycles, 
-                      retErr, result, evn, evbad, stack, nodeID, path, cycles, 
-                      idx, outs, cur, edge, epath, isTC, tw, np >>
+                      retErr, result, evn, evbad, inp, stack, nodeID, path, 
+                      cycles, idx, outs, cur, edge, epath, isTC, tw, np >>
 
 m0b == /\ pc = "m0b"
        /\ /\ nodeID' = root
@@ -834,12 +839,12 @@ m0b == /\ pc = "m0b"
        /\ cur' = 0
        /\ pc' = "cn0"
        /\ UNCHANGED << ti, C, ideal, visited, nw, ew, nwc, ewc, tcd, retCycles, 
-                       retErr, roots, root, result, evn, evbad, edge, epath, 
-                       isTC, tw, np >>
+                       retErr, roots, root, result, evn, evbad, inp, edge, 
+                       epath, isTC, tw, np >>
 
 m1 == /\ pc = "m1"
-      /\ IF evbad = 0 /\ ~EvMatch(Inputs[ti], evn + 1, ([k |-> "root", id |-> root, pos |-> 0, w |-> WOut(nw[root]), wc |-> nwc[root], cyc |-> retCycles, err |-> ErrCls(retErr), full |-> FullState(C, nw, ew, nwc, ewc)]))
-            THEN /\ PrintT(ToJson([rec |-> "evmismatch", id |-> Inputs[ti].id, n |-> evn + 1, got |-> ([k |-> "root", id |-> root, pos |-> 0, w |-> WOut(nw[root]), wc |-> nwc[root], cyc |-> retCycles, err |-> ErrCls(retErr), full |-> FullState(C, nw, ew, nwc, ewc)]), want |-> EvWant(Inputs[ti], evn + 1)]))
+      /\ IF evbad = 0 /\ ~EvMatch(inp, evn + 1, ([k |-> "root", id |-> root, pos |-> 0, w |-> WOut(nw[root]), wc |-> nwc[root], cyc |-> retCycles, err |-> ErrCls(retErr), full |-> FullState(C, nw, ew, nwc, ewc)]))
+            THEN /\ PrintT(ToJson([rec |-> "evmismatch", id |-> inp.id, n |-> evn + 1, got |-> ([k |-> "root", id |-> root, pos |-> 0, w |-> WOut(nw[root]), wc |-> nwc[root], cyc |-> retCycles, err |-> ErrCls(retErr), full |-> FullState(C, nw, ew, nwc, ewc)]), want |-> EvWant(inp, evn + 1)]))
                  /\ evbad' = evn + 1
             ELSE /\ TRUE
                  /\ evbad' = evbad
@@ -853,8 +858,8 @@ m1 == /\ pc = "m1"
       /\ root' = ""
       /\ pc' = "m0"
       /\ UNCHANGED << ti, C, ideal, visited, nw, ew, nwc, ewc, tcd, retCycles, 
-                      retErr, roots, stack, nodeID, path, cycles, idx, outs, 
-                      cur, edge, epath, isTC, tw, np >>
+                      retErr, roots, inp, stack, nodeID, path, cycles, idx, 
+                      outs, cur, edge, epath, isTC, tw, np >>
 
 m2 == /\ pc = "m2"
       /\ IF result = "running"
@@ -865,16 +870,17 @@ m2 == /\ pc = "m2"
                  /\ UNCHANGED result
       /\ pc' = "m3"
       /\ UNCHANGED << ti, C, ideal, visited, nw, ew, nwc, ewc, tcd, retCycles, 
-                      retErr, roots, root, evn, evbad, stack, nodeID, path, 
-                      cycles, idx, outs, cur, edge, epath, isTC, tw, np >>
+                      retErr, roots, root, evn, evbad, inp, stack, nodeID, 
+                      path, cycles, idx, outs, cur, edge, epath, isTC, tw, np >>
 
 m3 == /\ pc = "m3"
-      /\ PrintT(ToJson([rec |-> "outcome", id |-> Inputs[ti].id, roots |-> roots, out |-> Outcome(C, result, nw, ew, nwc, ewc), evn |-> evn, evbad |-> evbad,
-                        evall |-> (~HasEvents(Inputs[ti]) \/ evn = Len(Inputs[ti].events))]))
+      /\ PrintT(ToJson([rec |-> "outcome", id |-> inp.id, roots |-> roots, out |-> Outcome(C, result, nw, ew, nwc, ewc), evn |-> evn, evbad |-> evbad,
+                        evall |-> (~HasEvents(inp) \/ evn = Len(inp.events))]))
       /\ pc' = "Done"
       /\ UNCHANGED << ti, C, ideal, visited, nw, ew, nwc, ewc, tcd, retCycles, 
-                      retErr, roots, root, result, evn, evbad, stack, nodeID, 
-                      path, cycles, idx, outs, cur, edge, epath, isTC, tw, np >>
+                      retErr, roots, root, result, evn, evbad, inp, stack, 
+                      nodeID, path, cycles, idx, outs, cur, edge, epath, isTC, 
+                      tw, np >>
 
 (* Allow infinite stuttering to prevent deadlock on termination. *)
 Terminating == pc = "Done" /\ UNCHANGED vars
